@@ -1,5 +1,4 @@
-import Lean
-import Dnp3.Model.Ffi
+import Dnp3.Props.C20Lists
 /-!
 # C20 — The C/.NET/Java binding layer maps every value to its namesake, losslessly
 
@@ -16,116 +15,6 @@ fails `arms_namesake…`, a collision that is not listed fails `arms_injective`,
 -/
 namespace Dnp3.Props.C20
 open Dnp3.Gen.Ffi Dnp3.Ffi
-
-open Lean in
-/-- `c!"Abc"` is the list of character codes `[65, 98, 99]` (notation only: the reviewed lists below are written as
-    text, the kernel sees numbers — `String` operations are far too slow in the kernel) -/
-macro "c!" s:str : term => do
-  let cs := s.getString.toList.toArray.map (fun c => Syntax.mkNumLit (toString c.toNat))
-  `(([$cs,*] : List Nat))
-
-example : c!"Ab_9" = [65, 98, 95, 57] := rfl
-example : String.ofList ((c!"TaskError").map Char.ofNat) = "TaskError" := by decide
-
-/-- reviewed variant renames: (source type, source variant, target variant) -/
-def renames : List Rename := [
-  -- time qualities: the ffi enum names carry a `Time` suffix; `Option<Time>::None` is the invalid quality
-  ⟨c!"Time", c!"Synchronized", c!"SynchronizedTime"⟩,
-  ⟨c!"Time", c!"Unsynchronized", c!"UnsynchronizedTime"⟩,
-  ⟨c!"Option", c!"None", c!"InvalidTime"⟩,
-  ⟨c!"TimeQuality", c!"SynchronizedTime", c!"Synchronized"⟩,
-  ⟨c!"TimeQuality", c!"UnsynchronizedTime", c!"Unsynchronized"⟩,
-  ⟨c!"TimeQuality", c!"InvalidTime", c!"None"⟩,
-  -- restart delay: c!"not supported" is the absent delay on the native side (both directions)
-  ⟨c!"RestartDelayType", c!"NotSupported", c!"None"⟩,
-  ⟨c!"Option", c!"None", c!"NotSupported"⟩,
-  -- runtime errors are folded into the flat `ParamError` with a `Runtime` prefix
-  ⟨c!"RuntimeError", c!"CannotBlockWithinAsync", c!"RuntimeCannotBlockWithinAsync"⟩,
-  ⟨c!"RuntimeError", c!"FailedToCreateRuntime", c!"RuntimeCreationFailure"⟩,
-  -- task errors: the ffi error enums have three coarse buckets (see `manyToOne`) and older names
-  ⟨c!"TaskError", c!"Link", c!"NoConnection"⟩,
-  ⟨c!"TaskError", c!"Transport", c!"NoConnection"⟩,
-  ⟨c!"TaskError", c!"Disabled", c!"NoConnection"⟩,
-  ⟨c!"TaskError", c!"MalformedResponse", c!"BadResponse"⟩,
-  ⟨c!"TaskError", c!"UnexpectedResponseHeaders", c!"BadResponse"⟩,
-  ⟨c!"TaskError", c!"NonFinWithoutCon", c!"BadResponse"⟩,
-  ⟨c!"TaskError", c!"NeverReceivedFir", c!"BadResponse"⟩,
-  ⟨c!"TaskError", c!"UnexpectedFir", c!"BadResponse"⟩,
-  ⟨c!"TaskError", c!"MultiFragmentResponse", c!"BadResponse"⟩,
-  ⟨c!"TaskError", c!"NoSuchAssociation", c!"AssociationRemoved"⟩,
-  -- accepted only where the target enum has no `RejectedByIin2` of its own: see `renames_only_without_namesake`
-  ⟨c!"TaskError", c!"RejectedByIin2", c!"IinError"⟩,
-  -- command response mismatches share one ffi value (see `manyToOne`)
-  ⟨c!"CommandResponseError", c!"HeaderCountMismatch", c!"HeaderMismatch"⟩,
-  ⟨c!"CommandResponseError", c!"HeaderTypeMismatch", c!"HeaderMismatch"⟩,
-  ⟨c!"CommandResponseError", c!"ObjectCountMismatch", c!"HeaderMismatch"⟩,
-  ⟨c!"CommandResponseError", c!"ObjectValueMismatch", c!"HeaderMismatch"⟩,
-  -- errors folded into the flat `ParamError`, qualified by their origin
-  ⟨c!"AssociationError", c!"Shutdown", c!"MasterAlreadyShutdown"⟩,
-  ⟨c!"AssociationError", c!"DuplicateAddress", c!"AssociationDuplicateAddress"⟩,
-  ⟨c!"PollError", c!"Shutdown", c!"MasterAlreadyShutdown"⟩,
-  ⟨c!"PollError", c!"NoSuchAssociation", c!"AssociationDoesNotExist"⟩,
-  ⟨c!"TlsError", c!"Other", c!"OtherTlsError"⟩,
-  -- file type: the ffi enum calls a plain file `Simple`
-  ⟨c!"FileType", c!"File", c!"Simple"⟩,
-  -- TLS certificate mode selects a constructor function: authority based = full PKI
-  ⟨c!"CertificateMode", c!"AuthorityBased", c!"full_pki"⟩,
-  -- control codes: the ffi enums have no `Unknown(u8)`; an undefined raw value is presented as NUL (LOSSY, see report)
-  ⟨c!"TripCloseCode", c!"Unknown", c!"Nul"⟩,
-  ⟨c!"OpType", c!"Unknown", c!"Nul"⟩,
-  -- outstation features: bool on the ffi side, two-valued enum natively
-  ⟨c!"bool", c!"true", c!"Enabled"⟩,
-  ⟨c!"bool", c!"false", c!"Disabled"⟩
-]
-
-/-- reviewed type pairings (source type ↦ target type, last path segments) -/
-def typeRenames : List TypeRename := [
-  ⟨c!"AnalogCommandValue", c!"AnalogCommandType"⟩,   -- value-carrying enum ↦ its discriminant
-  ⟨c!"Time", c!"TimeQuality"⟩, ⟨c!"Option", c!"TimeQuality"⟩, ⟨c!"TimeQuality", c!"Time"⟩, ⟨c!"TimeQuality", c!"Option"⟩,
-  ⟨c!"RuntimeError", c!"ParamError"⟩, ⟨c!"AssociationError", c!"ParamError"⟩, ⟨c!"PollError", c!"ParamError"⟩, ⟨c!"TlsError", c!"ParamError"⟩,
-  -- `TaskError` is embedded in every per-operation error enum of the bindings
-  ⟨c!"TaskError", c!"CommandError"⟩, ⟨c!"TaskError", c!"TimeSyncError"⟩, ⟨c!"TaskError", c!"RestartError"⟩, ⟨c!"TaskError", c!"ReadError"⟩,
-  ⟨c!"TaskError", c!"LinkStatusError"⟩, ⟨c!"TaskError", c!"EmptyResponseError"⟩, ⟨c!"TaskError", c!"FileError"⟩,
-  ⟨c!"CommandResponseError", c!"CommandError"⟩, ⟨c!"WriteError", c!"EmptyResponseError"⟩,
-  ⟨c!"CertificateMode", c!"TlsClientConfig"⟩, ⟨c!"CertificateMode", c!"TlsServerConfig"⟩,
-  ⟨c!"AutoTimeSync", c!"Option"⟩, ⟨c!"AutoTimeSync", c!"TimeSyncProcedure"⟩, ⟨c!"TimeSyncMode", c!"TimeSyncProcedure"⟩,
-  ⟨c!"RestartDelayType", c!"Option"⟩, ⟨c!"RestartDelayType", c!"RestartDelay"⟩, ⟨c!"RestartDelay", c!"RestartDelayType"⟩, ⟨c!"Option", c!"RestartDelayType"⟩,
-  ⟨c!"WriteTimeResult", c!"Result"⟩, ⟨c!"WriteTimeResult", c!"RequestError"⟩, ⟨c!"FreezeResult", c!"Result"⟩, ⟨c!"FreezeResult", c!"RequestError"⟩,
-  ⟨c!"UpdateInfo", c!"UpdateResult"⟩, ⟨c!"EventClass", c!"Option"⟩, ⟨c!"bool", c!"Feature"⟩
-]
-
-/-- deliberate many-to-one collapses: (source type, target variant) -/
-def manyToOne : List ManyToOne := [
-  ⟨c!"TaskError", c!"NoConnection"⟩,            -- Link / Transport / Disabled / NoConnection: c!"no usable connection"
-  ⟨c!"TaskError", c!"BadResponse"⟩,             -- six kinds of malformed / unexpected response
-  ⟨c!"CommandResponseError", c!"HeaderMismatch"⟩, -- four kinds of echo mismatch
-  ⟨c!"TripCloseCode", c!"Nul"⟩,                 -- Unknown(u8) is presented as Nul (LOSSY, see report)
-  ⟨c!"OpType", c!"Nul"⟩                         -- Unknown(u8) is presented as Nul (LOSSY, see report)
-]
-
-/-- reviewed field renames: (target field, source accessor) -/
-def fieldRenames : List FieldRename := [
-  ⟨c!"s_var", c!"static_variation"⟩, ⟨c!"e_var", c!"event_variation"⟩,   -- point configs: native abbreviations
-  ⟨c!"max_double_binary", c!"max_double_bit_binary"⟩, ⟨c!"max_double_bit_binary", c!"max_double_binary"⟩,
-  ⟨c!"index", c!"idx"⟩,                    -- measurement constructors `ffi::X::new(idx, value)`
-  ⟨c!"created", c!"id"⟩,                   -- `UpdateInfo::Created(id)`
-  ⟨c!"func", c!"function"⟩,                -- response header
-  ⟨c!"control_field", c!"control"⟩,        -- request header
-  ⟨c!"value", c!"raw_value"⟩,              -- ffi::Timestamp.value from `Timestamp::raw_value()`
-  ⟨c!"value", c!"time"⟩, ⟨c!"quality", c!"time"⟩,  -- ffi::Timestamp from `Option<Time>`: both fields are functions of `time` (arms table)
-  ⟨c!"value", c!"it"⟩,                     -- ffi::OctetString.value is the byte iterator `it`
-  ⟨c!"file_name", c!"current_name"⟩, ⟨c!"file_name", c!"name"⟩,  -- C string copies of `FileInfo::name`
-  ⟨c!"address", c!"raw_value"⟩,            -- AssociationId.address from `EndpointAddress::raw_value()`
-  ⟨c!"association_id", c!"address"⟩,       -- PollId.association_id from the association's address
-  ⟨c!"master_address", c!"address"⟩        -- MasterChannelConfig.master_address from the validated `address`
-]
-
-/-- reviewed constant fields: (struct type, field) that an arm sets to a constant because the source variant has no such datum -/
-def constFields : List (Name × Name) := [
-  (c!"UpdateInfoFields", c!"created"), (c!"UpdateInfoFields", c!"discarded"),  -- NoPoint / NoEvent / Created carry fewer ids
-  (c!"RestartDelayFields", c!"value"),                                       -- NotSupported has no delay
-  (c!"Timestamp", c!"quality")                                              -- g50/g51 absolute time is synchronized by definition
-]
 
 /-! ## known finding D22 — `EmptyResponseError`: `IinError` and `RejectedByIin2` are exchanged
 see `Dnp3.Ffi.isD22` (Model/Ffi.lean). -/
